@@ -153,7 +153,7 @@ class Resolver:
             if op["int"] is not None:
                 return ("const", op["int"])
             if op["promoted"] >= 0:
-                return ("promoted", op["promoted"], self.promoted_value(op["promoted"]))
+                return ("promoted", op["promoted"], self.promoted_value(op["promoted"], op.get("pname")))
             return ("str", op["repr"])
         return ("unk", op.get("d", "operand"))
 
@@ -253,8 +253,8 @@ class Resolver:
             return ("index", e)
         return ("unk", "proj")
 
-    def promoted_value(self, idx):
-        pb = self.F.promoted(self.body, idx)
+    def promoted_value(self, idx, pname=None):
+        pb = self.F.promoted(self.body, idx, pname)
         if pb is None:
             return None
         return eval_promoted(self.F, pb)
